@@ -16,6 +16,10 @@ from .common import  rreplace
 logger = logging.getLogger('IsoQuant')
 
 
+# comment lines and column names written at the top of per-chromosome output files
+HEADER_LINE_PREFIXES = ("# ", "#read_id\t", "#feature_id\t", "#chr\t", "#chrom\t", "#isoform\t")
+
+
 def merge_file_list(fname, label, chr_ids):
     # per-chromosome files carry the chromosome name right after the sample prefix that starts the file name;
     # the prefix may occur in the rest of the name as well (e.g. "counts", "linear", "t")
@@ -30,9 +34,11 @@ def merge_files(file_name, label, chr_ids, merged_file_handler, copy_header=True
     file_names.sort(key=lambda s: [int(t) if t.isdigit() else t.lower() for t in re.split('(\d+)', s)])
     for i, file_name in enumerate(file_names):
         if not os.path.exists(file_name): continue
+        # header lines are comments ("# ...") and the column names; data lines may start with '#' too
+        # (read names, feature ids)
         header_count = 0
         with open(file_name, 'r') as f:
-            while f.readline().startswith("#"):
+            while f.readline().startswith(HEADER_LINE_PREFIXES):
                 header_count += 1
         with open(file_name, 'rt') as f:
             if not (copy_header and i == 0):
